@@ -69,6 +69,22 @@ def two_roll_cases(chk, rng):
             rp2 = RollPass(label="p", roll=mkroll(g), height=h)
             if abs(rp2.gap - gap) > 1e-12 * scale:
                 return chk.fail('two-roundtrip', f"{name}: height {h} fed back gives gap {rp2.gap}, original {gap}", data)
+            # histories: a pass defined by its height whose height is assigned again (before anything was read, and after everything was read
+            # and the cache re-evaluated): gap, contours and usable cross-section follow the new height
+            for read_first in (False, True):
+                rpe = RollPass(label="p", roll=mkroll(g), height=h)
+                if read_first:
+                    rpe.gap, rpe.height, rpe.contour_lines
+                h2 = h + 0.25 * (gap + 1e-3)
+                rpe.height = h2
+                if read_first:
+                    rpe.reevaluate_cache()
+                upe = np.array(rpe.contour_lines.geoms[0].coords)
+                want_gap = h2 - 2 * g.depth
+                if abs(float(rpe.gap) - want_gap) > 1e-12 * scale or (fmask.any() and np.abs(upe[fmask][:, 1] - want_gap / 2).max() > 1e-12 * scale):
+                    return chk.fail('two-edit', f"{name}: pass built with height={h}, {'all members read, ' if read_first else ''}height assigned {h2}"
+                                    f"{' and the cache re-evaluated' if read_first else ''}: gap = {float(rpe.gap)}, the new height calls for {want_gap}; faces at "
+                                    f"{float(upe[fmask][:, 1].max()) if fmask.any() else float('nan')}", dict(data, history='height assigned again', read_first=read_first))
             ucs = rp.usable_cross_section
             b = ucs.bounds
             if abs((b[2] - b[0]) - g.usable_width) > 1e-9 * scale or abs(b[0] + b[2]) > 1e-9 * scale or abs(b[1] + b[3]) > 1e-9 * scale:
@@ -148,6 +164,13 @@ def three_roll_cases(chk, rng):
             rp2 = ThreeRollPass(label="p", roll=mkroll(g), inscribed_circle_diameter=icd)
             if abs(rp2.gap - gap) > 1e-9 * scale:
                 return chk.fail('three-roundtrip-icd', f"{name}: inscribed circle diameter {icd} fed back gives gap {rp2.gap}, original {gap}", data)
+            if 'indent' in kw:
+                # constricted grooves: the polyline misses the top of the hump by about 2e-5 of the usable width (sampling), so the height is compared
+                # with that tolerance - but it IS the opening at the deepest point, not at the centre line
+                rp3 = ThreeRollPass(label="p", roll=mkroll(g), height=h)
+                if abs(rp3.gap - gap) > 1e-3 * scale or abs(h - icd) > 1e-3 * scale:
+                    return chk.fail('three-roundtrip-height', f"{name} (constricted): height {h} (inscribed circle diameter {icd}) fed back gives gap {rp3.gap}, "
+                                    f"original {gap}", data)
             if 'indent' not in kw:
                 rp3 = ThreeRollPass(label="p", roll=mkroll(g), height=h)
                 if abs(rp3.gap - gap) > 1e-9 * scale:
